@@ -124,7 +124,7 @@ pub async fn transfer_file_to_remote(
     let mut child = tokio::process::Command::new("ssh")
         .arg(host)
         .arg(format!(
-            "cat > $'{tmp_escaped}' && if [ -d $'{escaped}' ]; then echo 'destination is a directory' >&2; exit 1; fi && mv -f $'{tmp_escaped}' $'{escaped}'{touch}"
+            "cat > $'{tmp_escaped}' && [ \"$(wc -c < $'{tmp_escaped}')\" -eq {file_size} ] && if [ -d $'{escaped}' ]; then echo 'destination is a directory' >&2; exit 1; fi && mv -f $'{tmp_escaped}' $'{escaped}'{touch}"
         ))
         .stdin(std::process::Stdio::piped())
         .stdout(std::process::Stdio::null())
